@@ -50,7 +50,9 @@ def keywords : List (Seq × Kind) := [
 
 def classify (lit : Seq) : Tok :=
   if (parseInt64 lit).isSome then ⟨.numeric, lit⟩
-  else match lookup (lit.map upper) keywords with
+  -- `switch strings.ToUpper(lit)`: rune-wise (U+0131 / U+017F fold into `I` / `S`: `matrıx` is MATRIX); on an ASCII
+  -- literal it is `lit.map upper`
+  else match lookup (Utf8.upperLit lit) keywords with
     | some k => ⟨k, lit⟩
     | none => ⟨.ident, lit⟩
 
@@ -438,11 +440,11 @@ def toOutcome {α} : R α → Outcome α
 /-- `nexus.NewParser(r).IgnoreIdentical(i).Alphabet(a).Parse()` -/
 def parse (f : Facts) (o : POpts) (bs : Seq) : Outcome Aln := toOutcome (parseR f o bs)
 
-/-- `Parse()` on the raw input, ALL byte strings; `none` = no claim (the input holds U+0131 / U+017F, which
-`strings.ToUpper` maps to `I` / `S` in the keyword test).  `len(lit) != 1` for the GAP / MISSING / MATCHCHAR characters is a
+/-- `Parse()` on the raw input, ALL byte strings (the keyword test of `classify` upper-cases rune-wise, so U+0131 /
+U+017F are covered).  `len(lit) != 1` for the GAP / MISSING / MATCHCHAR characters is a
 BYTE length of the written literal: only an ASCII character passes, so `[]rune(lit)[0]` is that byte. -/
-def parseBytes (f : Facts) (o : POpts) (bs : Seq) : Option (Outcome Aln) :=
-  if Utf8.hasFoldRune bs then none else some (parse f o (Utf8.norm bs))
+def parseBytes (f : Facts) (o : POpts) (bs : Seq) : Outcome Aln :=
+  parse f o (Utf8.norm bs)
 
 /-! ### writer -/
 
